@@ -73,7 +73,8 @@ type vfwSched struct {
 	Fault vfwFault `json:"fault"`
 	Sync  bool     `json:"sync"`
 	Src   string   `json:"src"`     // coop | silent: what the source does when its Recv loop sees the half-close
-	Wm    string   `json:"payload"` // inc | flat: watermarks increase / repeat and go back (identity travels in the timestamp)
+	Wm    string   `json:"payload"`
+	Code  string   `json:"code"` // what an injected / scripted failure looks like: a gRPC status of that code, or "plain" (no status) // inc | flat: watermarks increase / repeat and go back (identity travels in the timestamp)
 }
 
 // state of one run, guarded by vfwHarness.mu
@@ -264,7 +265,7 @@ func (s *vfwSrvStream) SendMsg(m any) error {
 	})
 	if fail {
 		s.h.note(s.r, map[string]interface{}{"ev": "FaultFired", "k": "tgtSendFail"}, func() { s.r.ended = true })
-		return status.Error(codes.Unavailable, "verif: injected Send failure")
+		return vfwFail(s.r.sc.Code, "verif: injected Send failure")
 	}
 	return s.ServerStream.SendMsg(m)
 }
@@ -314,7 +315,7 @@ func (s *vfwCliStream) Send(req *adminservice.StreamWorkflowReplicationMessagesR
 	})
 	if fail {
 		s.h.note(s.r, map[string]interface{}{"ev": "FaultFired", "k": "srcSendFail"}, func() { s.r.ended = true })
-		return status.Error(codes.Unavailable, "verif: injected Send failure")
+		return vfwFail(s.r.sc.Code, "verif: injected Send failure")
 	}
 	return s.AdminService_StreamWorkflowReplicationMessagesClient.Send(req)
 }
@@ -443,6 +444,23 @@ func (h *vfwHarness) census(after string) int {
 	h.emit(map[string]interface{}{"ev": "Census", "after": after, "stuck": len(kinds), "kinds": strings.Join(kinds, ",")})
 	h.mu.Unlock()
 	return len(kinds)
+}
+
+// vfwFail: the error an injected Send failure / a scripted source failure carries
+func vfwFail(code, what string) error {
+	switch code {
+	case "resource_exhausted":
+		return status.Error(codes.ResourceExhausted, what)
+	case "internal":
+		return status.Error(codes.Internal, what)
+	case "canceled":
+		return status.Error(codes.Canceled, what)
+	case "deadline_exceeded":
+		return status.Error(codes.DeadlineExceeded, what)
+	case "plain":
+		return errors.New(what)
+	}
+	return status.Error(codes.Unavailable, what)
 }
 
 // ---------------------------------------------------------------- messages
@@ -614,7 +632,7 @@ func (h *vfwHarness) runSchedule(sc *vfwSched) {
 			if call != nil {
 				var e error
 				if c.M == "err" {
-					e = status.Error(codes.Unavailable, "verif: scripted source failure")
+					e = vfwFail(sc.Code, "verif: scripted source failure")
 				}
 				select {
 				case call.end <- e:
